@@ -363,6 +363,13 @@ fn run(src: &str) -> String {
     if result.any_syntax_errors() {
         return "SYNTAX-ERRORS".into();
     }
+    show_result(&result)
+}
+
+/// the canonical I6 line of an analysis result (shared with mode `include`)
+pub fn show_result<T: SourceTrait>(
+    result: &oq3_semantics::syntax_to_semantics::ParseResult<T>,
+) -> String {
     let asg_s = list(result.program().stmts(), stmt);
     let table = result.symbol_table();
     let n = table.verif_num_symbols();
